@@ -55,7 +55,7 @@ fn parents() -> Vec<Option<HLoc>> {
     w().model.borrow().reach().1
 }
 
-fn node_of(o: Oid) -> &'static Node {
+pub fn node_of(o: Oid) -> &'static Node {
     resolve_node(&parents(), o)
 }
 
@@ -712,7 +712,7 @@ pub fn apply_op(op: &Op, top: bool) {
 /// Take stored handle `j` out of the value of object `o`; `unadopt`: call
 /// unadopt first (forced where the mode demands it); `keep`: keep it as a
 /// root, else drop it.
-fn remove_slot(o: Oid, j: usize, unadopt: bool, keep: bool) {
+pub fn remove_slot(o: Oid, j: usize, unadopt: bool, keep: bool) {
     let wd = w();
     let mode = wd.cfg.mode;
     let (t, rec, held, loose) = {
